@@ -85,6 +85,27 @@ impl ReedSolomonEncoder {
 }
 
 // ======================================================================
+// ReedSolomonEncoder / ReedSolomonDecoder - VERIFICATION HOOKS
+
+#[cfg(feature = "verif-hooks")]
+impl ReedSolomonEncoder {
+    /// Digest of the complete concrete state.
+    #[doc(hidden)]
+    pub fn verif_digest(&self) -> u64 {
+        self.0.verif_digest()
+    }
+}
+
+#[cfg(feature = "verif-hooks")]
+impl ReedSolomonDecoder {
+    /// Digest of the complete concrete state.
+    #[doc(hidden)]
+    pub fn verif_digest(&self) -> u64 {
+        self.0.verif_digest()
+    }
+}
+
+// ======================================================================
 // ReedSolomonDecoder - PUBLIC
 
 /// Reed-Solomon decoder using [`DefaultEngine`] and [`DefaultRate`].
